@@ -35,7 +35,7 @@ ASSUMPTIONS = [
 
 FEAT = gen.feat(
     p_proto=0.4,
-    p_kw=0.35,
+    p_kw=0.35, p_kw2=0.55, p_kw_meth=0.85, p_kwheavy=0.12,
     ann={"c": 5, "o": 1, "u": 3, "i": 1.5, "d": 1.2, "x": 0.7, "h": 0.7, "ph": 0.5, "ss": 0.4,
          "w": 0.25},
     bodies={"next_try": 0.6, "leaf": 4, "next": 3, "rec": 0.8, "fnext": 0.3, "next2": 0.2, "rec_next": 0.3},
